@@ -33,6 +33,13 @@ pub fn canon_rle(b: &[u8]) -> String {
     out.join(".")
 }
 
+pub fn unrle(s: &str) -> Vec<u8> {
+    if s == "-" { return vec![]; }
+    let mut out = vec![];
+    for p in s.split('.') { if let Some(n) = p.strip_prefix('z') { out.extend(std::iter::repeat(0u8).take(n.parse().unwrap_or(0))); } else { out.extend(unhex(p)); } }
+    out
+}
+
 #[derive(Clone)]
 struct Abs {
     ver: usize,
